@@ -5,9 +5,11 @@ CONSTANTS
   TemplateHasQ = TRUE
   H = 2
   LensKind = "one"
+  WithReload = TRUE
+  ReloadBumpsVersion = TRUE
   WithScroll = FALSE
   DelayedSetsVersion <- TreeDelayedSetsVersion
 SPECIFICATION Spec
-INVARIANTS TypeOK OneAlive ShownIsStarted Convergence ShowFixed DelayedFixed RowsOfOneRequest ExitClean
+INVARIANTS TypeOK OneAlive ShownIsStarted Convergence ShowFixed ReloadFixed DelayedFixed RowsOfOneRequest ExitClean
 PROPERTIES Liveness NoSurvivor
 CHECK_DEADLOCK FALSE
